@@ -654,7 +654,7 @@ func runC20(c *Ctx) {
 	// ---------- R4
 	c.Rule("R4", "GATE", "a failed service.Start shuts the just-created service down before returning the error", 1)
 	if setup != nil {
-		st := callsNamed(setup, func(f *types.Func) bool { return isMethod(f, pkgService, "Service", "Start") })
+		st := callsNamed(setup, func(f *types.Func) bool { return isServiceStartFn(p, f) })
 		sd := callsNamed(setup, func(f *types.Func) bool { return isServiceShutdownFn(p, f) })
 		ok := len(st) == 1 && len(sd) >= 1 && errGuardOn(sd[0].Block(), st[0], false)
 		pos := p.Pos(setup.Pos())
@@ -705,7 +705,7 @@ func runC20(c *Ctx) {
 	}
 
 	// ---------- R5
-	c.Rule("R5", "WHO", "the shutdown channel is closed at exactly one site, under the state ∈ {Running, Starting} test, in a function with a deferred recover()", 1)
+	c.Rule("R5", "WHO", "the shutdown channel is closed at exactly one site, in a function with a deferred recover() (repeated requests are no-ops); whether the close may depend on the state is decided by R15", 1)
 	{
 		chanField := ""
 		st := colT.Underlying().(*types.Struct)
@@ -765,7 +765,8 @@ func runC20(c *Ctx) {
 					}
 					stateGuard = all
 				}
-				c.Check(hasRecover && deferred && stateGuard, "close(shutdown channel) in "+fnName(fn), p.Pos(in.Pos()), "state-guarded, deferred recover", fmt.Sprintf("recover present=%v, deferred before close=%v, guarded by state∈{Running,Starting}=%v", hasRecover, deferred, stateGuard))
+				_ = stateGuard
+				c.Check(hasRecover && deferred, "close(shutdown channel) in "+fnName(fn), p.Pos(in.Pos()), "deferred recover", fmt.Sprintf("recover present=%v, deferred before close=%v: a second Shutdown() panics with close of closed channel", hasRecover, deferred))
 			})
 		}
 		if n != 1 {
@@ -778,6 +779,7 @@ func runC20(c *Ctx) {
 	runC20Round3(c)
 	runC20Round4(c)
 	runC20FatalDrain(c)
+	runC20Round5(c)
 }
 
 func constantInt64(c *types.Const) (int64, bool) {
